@@ -52,18 +52,18 @@ template <class TR> Constraint random_constraint(int n) {
   Linear_Expression e; for (int j = 0; j < n; ++j) e += a[j] * Variable(j);
   if (n > 0) e += 0 * Variable(n - 1);
   int b = rnd(-4, 4); int k = rnd(0, 9);
+  if (TR::strict_ok() && coin(30)) return coin() ? (e < b) : (e > b);
   if (k < 6) return e <= b;
   if (k < 8) return e >= b;
-  if (k < 9 || !TR::strict_ok()) return e == b;
-  return e < b;
+  return e == b;
 }
 
 template <class TR> struct ConvexChain {
   typedef typename TR::D D;
   int n;
   std::string dom;
-  bool twin_reported;
-  ConvexChain() : n(0), twin_reported(false) {}
+  bool twin_reported, overload_reported;
+  ConvexChain() : n(0), twin_reported(false), overload_reported(false) {}
 
   static Sys obs(const D& d, bool minimized = false) { D c(d); int n = d.space_dimension(); return ref::conv(minimized ? c.minimized_constraints() : c.constraints(), n); }
 
@@ -149,6 +149,9 @@ template <class TR> struct ConvexChain {
       else if (dec != 1) { violation(key("certificate", op.name, TR::nnc() ? ":nnc-counts" : ""), "non-stationary step without strict decrease of the recomputed certificate: " + txt + "; y=" + show(SY) + " x=" + show(SX) + " result=" + show(SZ)); return false; }
       if (!y_empty) {
         D c1(y), c2(z); int pc = TR::ppl_cert_compare(op.cert, c1, c2);
+        if (pc != 99 && !overload_reported) { D c3(y), c4(z); int pc2 = TR::ppl_cert_compare_certs(op.cert, c3, c4);
+          if (pc2 != 99) { checked(); hx::count("certificate_overload_compares");
+            if (pc2 != pc) { overload_reported = true; std::ostringstream o; o << "Certificate(y).compare(result) = " << pc << " but Certificate(y).compare(Certificate(result)) = " << pc2 << "; own: " << txt; violation(key("certificate", op.name, ":compare-overloads-disagree"), o.str() + "; y=" + show(SY) + " result=" + show(SZ)); } } }
         if (pc != 99) { checked(); hx::count("certificate_ppl_compares"); if (pc != 1) { std::ostringstream o; o << "PPL certificate compare(y, result) = " << pc << " on a non-stationary step; own: " << txt; violation(key("certificate", op.name, ":ppl-compare"), o.str() + "; y=" + show(SY) + " result=" + show(SZ)); return false; } }
       }
     }
@@ -242,7 +245,9 @@ template <class TR> struct ConvexChain {
       Linear_Expression e; for (int j = 0; j < n; ++j) e += rnd(-maxc - it, maxc + it) * Variable(j);
       int den = TR::dyadic() ? (1 << rnd(0, 2)) : rnd(1, 3);
       Generator g = point(e, den); std::vector<Generator> gv(1, g);
-      D inc = TR::from_gens(n, gv); x.upper_bound_assign(inc); t << "+" << str(g);
+      if (TR::nnc() && !y_empty && coin(35)) { Vec w; ref::feasible(n, SY, &w); gv.insert(gv.begin(), point_from(w, n)); gv[1] = closure_point(Linear_Expression(g.expression()), g.divisor()); t << "+[" << str(gv[0]) << "," << str(gv[1]) << ")"; }
+      else t << "+" << str(g);
+      D inc = TR::from_gens(n, gv); x.upper_bound_assign(inc);
     } else if (m < 40) { // hull with an affine image
       D im(y); Variable v(rnd(0, n - 1)); Linear_Expression e = small_expr(n, 2); int den = TR::dyadic() ? (1 << rnd(0, 1)) : rnd(1, 2);
       im.affine_image(v, e, den); x.upper_bound_assign(im); t << "hull-image(" << str(v) << ":=(" << str(e) << ")/" << den << ")";
